@@ -112,6 +112,10 @@ func genWireCmd(t *rapid.T, binary bool) wire.Cmd {
 		c.Key = key("key")
 	case wire.Touch, wire.Gat:
 		c.Key, c.Exptime = key("key"), genU32(t, "ttl")
+	case wire.Quit:
+		if binary {
+			c.Quiet = rapid.Bool().Draw(t, "quiet") // quitq
+		}
 	case wire.Get, wire.GetE:
 		n := rapid.IntRange(1, 6).Draw(t, "nkeys")
 		if rapid.IntRange(0, 7).Draw(t, "manyKeys") == 0 {
@@ -213,7 +217,7 @@ func checkDecoded(c wire.Cmd, binary bool, req common.Request, typ common.Reques
 		}
 	case wire.Quit:
 		r, ok := req.(common.QuitRequest)
-		if !ok || r.Opaque != c.Opaque || r.Quiet {
+		if !ok || r.Opaque != c.Opaque || r.Quiet != c.Quiet {
 			return fmt.Sprintf("decoded %#v", req)
 		}
 	}
